@@ -89,9 +89,12 @@ const INSERT: [&str; 36] = [
 
 /// What `Display` of a parse error must look like, read from the text only.
 fn check_error_text(input: &str, display: &str) -> Result<(), String> {
-    let rest = display.strip_prefix("Filter parsing error (").ok_or("header missing")?;
-    let close = rest.find("):\n").ok_or("header not terminated")?;
-    let (pos, after) = (&rest[..close], &rest[close + 3..]);
+    // header line: any wording, ending in `(L:C):`
+    let nl = display.find('\n').ok_or("no header line")?;
+    let (header, after) = (&display[..nl], &display[nl + 1..]);
+    let open = header.rfind('(').ok_or("header has no (L:C)")?;
+    let close = header[open..].find(')').ok_or("header has no (L:C)")? + open;
+    let pos = &header[open + 1..close];
     let (l, c) = pos.split_once(':').ok_or("no L:C")?;
     let l: usize = l.parse().map_err(|_| "line number not numeric")?;
     let c: usize = c.parse().map_err(|_| "column not numeric")?;
@@ -467,4 +470,14 @@ pub fn worker_size() -> i32 {
     }
     println!("OK {done}");
     0
+}
+
+pub fn replay(case: &serde_json::Value) -> Result<u64, String> {
+    let input = case["input"].as_str().ok_or("input")?;
+    let (_, uni) = unis::containers(true);
+    let scheme = uni.build();
+    let run = Run::new("replay", "exploration", Tier::Quick, 0);
+    let watch = Watch { slots: (0..4).map(|_| (AtomicU64::new(0), Mutex::new(String::new()))).collect(), epoch: Instant::now(), done: AtomicBool::new(false) };
+    judge(&run, &scheme, &watch, input, &Stats::default());
+    Ok(run.violations_seen())
 }
